@@ -6,6 +6,7 @@ CONSTANTS
   FIXWRAP = TRUE
   FIXHOPS = TRUE
   FIXOHEXP = TRUE
+  FIXOHFLG = TRUE
   FIXOHSEC = TRUE
   XorAcc <- SymXor
   MINLEN = 2
@@ -13,4 +14,4 @@ CONSTANTS
   MAXSEG = 3
   GEN = FALSE
   BROKEN = "none"
-INVARIANTS AuthenticVerifies TamperDetectedAtOwner StepsBounded Emit
+INVARIANTS OneHopVerifies AuthenticVerifies TamperDetectedAtOwner StepsBounded Emit
